@@ -285,6 +285,12 @@ def r19_8(run, model):
         it = S.norm_ws(run.facts.text(GOC, l["iter"]["sp"]))
         skips = [x["k"] for x in S.walk_no_closures(l["body"]) if x["k"] == "Continue"]
         filt = re.search(r"\.filter\(|\.take_while\(|\.skip_while\(", it) is not None
+        emit = model.fn("gen_type_definition", GOC)
+        emitted = [S.norm_ws(run.facts.text(GOC, x["iter"]["sp"])) for x in S.find(emit.body, "For") if "enums" in S.norm_ws(run.facts.text(GOC, x["iter"]["sp"]))]
+        same = bool(emitted) and it in emitted
+        run.ob("R19.8", "variant_struct_name|clash count ranges over the enums that are emitted", same, site(GOC, l["sp"]),
+               f"counted over `{it[:40]}`; type definitions are emitted from {emitted}",
+               witness="Option[T] at int32 and at string with the count taken over the source-level enums: both instances emit `type Some struct`")
         run.ob("R19.8", "variant_struct_name|clash count over all enums", not skips and not filt, site(GOC, l["sp"]),
                f"for … in {it[:50]}; skips: {skips or 'none'}; filtered: {filt}",
                witness="Lib::Color::Red and Main's Light::Red(string) both become `type Red struct`: duplicate declaration, ambiguous `case Red:`")
